@@ -444,7 +444,9 @@ static ogg_int64_t _initial_pcmoffset(OggVorbis_File *vf, vorbis_info *vi){
 
   while(1){
     ogg_packet op;
-    if(_get_next_page(vf,&og,-1)<0)
+    ogg_int64_t ret=_get_next_page(vf,&og,-1);
+    if(ret==OV_EREAD)return(OV_EREAD);
+    if(ret<0)
       break; /* should not be possible unless the file is truncated/mangled */
 
     if(ogg_page_bos(&og)) break;
@@ -594,6 +596,12 @@ static int _bisect_forward_serialno(OggVorbis_File *vf,
     /* this will consume a page, however the next bisection always
        starts with a raw seek */
     pcmoffset = _initial_pcmoffset(vf,&vi);
+    if(pcmoffset<0){
+      vorbis_info_clear(&vi);
+      vorbis_comment_clear(&vc);
+      if(next_serialno_list)_ogg_free(next_serialno_list);
+      return((int)pcmoffset);
+    }
 
     ret=_bisect_forward_serialno(vf,next,vf->offset,end,endgran,endserial,
                                  next_serialno_list,next_serialnos,m+1);
@@ -649,6 +657,7 @@ static int _open_seekable2(OggVorbis_File *vf){
 
   /* fetch initial PCM offset */
   ogg_int64_t pcmoffset = _initial_pcmoffset(vf,vf->vi);
+  if(pcmoffset<0)return((int)pcmoffset);
 
   /* we can seek, so set out learning all about this file */
   if(vf->callbacks.seek_func && vf->callbacks.tell_func){
